@@ -92,3 +92,29 @@ Proof.
   apply m_lit in H as [H1 H2]. injection H2 as <-. split; [reflexivity|].
   now replace (a + length s - a) with (length s) by lia.
 Qed.
+
+(** the pattern '.{n}' (DOTALL) of read(n): matches exactly the next n characters, whenever there are n *)
+Lemma m_rep_any t : forall n i k, i <= length t ->
+  m t (Rep n Any) i k = if i + n <=? length t then k (i + n) else None.
+Proof.
+  induction n as [|n IH]; intros i k Hi; cbn [Rep m].
+  - rewrite Nat.add_0_r. apply Nat.leb_le in Hi. now rewrite Hi.
+  - destruct (nth_error t i) as [x|] eqn:En.
+    + assert (Hlt : i < length t) by (apply nth_error_Some; congruence).
+      rewrite IH by lia. now replace (S i + n) with (i + S n) by lia.
+    + apply nth_error_None in En. destruct (i + S n <=? length t) eqn:E; [apply Nat.leb_le in E; lia | reflexivity].
+Qed.
+
+Theorem rx_search_dot n t a b : rx_search (Rep n Any) t 0 = Some (a, b) -> a = 0 /\ b = n /\ n <= length t.
+Proof.
+  intros H. apply rx_search_spec in H as (_ & _ & H & Hleft). unfold match_at in *.
+  assert (Ha : a <= length t).
+  { destruct (Nat.le_gt_cases a (length t)) as [L|G]; [exact L|]. exfalso.
+    destruct n as [|n]; cbn [Rep m] in H.
+    - specialize (Hleft 0 (Nat.le_0_l _)). cbn [Rep m] in Hleft. assert (0 < a) by lia. specialize (Hleft H0). discriminate.
+    - assert (E : nth_error t a = None) by (apply nth_error_None; lia). rewrite E in H. discriminate. }
+  rewrite m_rep_any in H by exact Ha. destruct (a + n <=? length t) eqn:E; [|discriminate]. apply Nat.leb_le in E.
+  injection H as <-. destruct a as [|a]; [repeat split; lia|]. exfalso.
+  specialize (Hleft 0 (Nat.le_0_l _) (Nat.lt_0_succ _)). rewrite m_rep_any in Hleft by lia.
+  replace (0 + n <=? length t) with true in Hleft by (symmetry; apply Nat.leb_le; lia). discriminate.
+Qed.
